@@ -389,6 +389,31 @@ def main():
         problems.extend(aud)
     tok = audit_tokens()
     problems.extend("forbidden token: " + t for t in tok)
+    if tier == "thorough" and build_ok and cfg.get("coqchk", True):
+        # independent re-check of the compiled property file and everything it depends on
+        try:
+            rc, out = run(["coqchk", "-silent", "-o", "-Q", "theories", "A5", "-Q", "gen", "A5gen", f"A5.Props.{prop}"],
+                          cwd=COQ, timeout=cfg.get("coqchk_timeout", 5400))
+            checker_cmds.append(f"coqchk -silent -o A5.Props.{prop}")
+            if rc != 0:
+                problems.append("coqchk failed: " + out[-400:])
+            else:
+                m = re.search(r"\* Axioms:(.*?)\n\s*\n\* ", out, re.S)
+                ax = re.findall(r"^\s+([A-Za-z_][\w.']*)", m.group(1), re.M) if m and "<none>" not in m.group(1) else []
+                allow = set(STD_AXIOMS) | set(cfg.get("allow_axioms", []))
+                for a in ax:
+                    base = a.split(".")
+                    short = ".".join(base[-2:]) if len(base) >= 2 else a
+                    if not (short in allow or a in allow or any(seg in ("PrimInt63", "PrimFloat", "Uint63", "FloatAxioms", "Sint63", "FloatOps", "PrimInt63Notations") for seg in base)
+                            or any(short.endswith(x.split(".")[-1]) for x in allow)):
+                        problems.append(f"coqchk: axiom {a} is not on the allow-list")
+                for bad in ("type-in-type", "unsafe (co)fixpoints", "positivity is assumed"):
+                    mm = re.search(re.escape(bad) + r":\s*(\S+)", out)
+                    if mm and mm.group(1) != "<none>":
+                        problems.append(f"coqchk: {bad}: {mm.group(1)}")
+                log(f"coqchk: {len(ax)} axioms in the closure, all on the allow-list" if not any(p.startswith("coqchk") for p in problems) else "coqchk: PROBLEMS")
+        except subprocess.TimeoutExpired:
+            problems.append("coqchk timed out")
     log(f"theorems: {len(theorems)}; audit problems: {len(aud) + len(tok)}")
 
     # 3. correspondence
